@@ -11,7 +11,7 @@
    ORDER THE PYTHON CODE EVALUATES THEM, the first guard that fires decides the
    exception class.  `Ok` means that no guard fired (the function returns its table,
    fit, score, array or Axes).  Line numbers refer to /repo/src/model_diagnostics at the
-   time of writing (commit 7801489); translate/gen_guards.py ties the guards to the source by
+   time of writing (commit b2b5cba); translate/gen_guards.py ties the guards to the source by
    function, independent of line numbers.
    Definitions only; the theorems are in proofs/ValidateProps.v, the comparison with
    the implementation on the exhaustively enumerated descriptor space in
@@ -184,17 +184,17 @@ Definition skl_fit (n_x n_y : nat) (nw : option nat) (rk : wrank) : outcome :=
   first_of [ guard (len_ne n_x n_y) ValueError;
              match nw with None => Ok | Some m => guard (len_ne m n_y || is_r2 rk) ValueError end ].
 
-(* scoring/scoring.py 827-898 (after functional / level have been determined) *)
+(* scoring/scoring.py 827-900 (after functional / level have been determined) *)
 Definition decompose_core (f : functional) (l : Q) (d : descriptor) : outcome :=
   first_of [ guard (is_other f) ValueError;                                              (* 828-833 *)
              guard (uses_level f && level_bad l) ValueError;                             (* 834-836 *)
              validate_same_first_dimension (d_n_obs d) (d_n_pred d);                     (* 841 *)
              weights_1d (d_n_w d) (d_w_rank d) (d_n_obs d);                              (* 846-853 *)
              match f with
-             | Fmean => skl_fit (d_n_pred d) (d_n_obs d) (d_n_w d) (d_w_rank d)          (* 856, 898 *)
+             | Fmean => skl_fit (d_n_pred d) (d_n_obs d) (d_n_w d) (d_w_rank d)          (* 858, 900 *)
              | Fmedian =>                                                                (* 837-839: median := 0.5-quantile *)
                  isofit_core (d_n_pred d) (d_n_obs d) Fquantile (1 # 2) (d_n_w d) (d_w_rank d) (d_w_sign d)
-             | _ => isofit_core (d_n_pred d) (d_n_obs d) f l (d_n_w d) (d_w_rank d) (d_w_sign d)   (* 859, 898 *)
+             | _ => isofit_core (d_n_pred d) (d_n_obs d) f l (d_n_w d) (d_w_rank d) (d_w_sign d)   (* 861, 900 *)
              end ].
 
 (* the attribute `functional` of a scoring object: 156-161, 376, 481, 665 *)
